@@ -4,6 +4,7 @@ import MlModel.Lemmas.Piter2Live
 import MlModel.Lemmas.Piter2Final
 import MlModel.Lemmas.Piter2Data
 import MlModel.Lemmas.Piter2DataEq
+import MlModel.Lemmas.Piter2Incl
 /-!
 # C13, the two-level composition `piter(iterator_fn, input_iterators=[i_1 … i_n], max_parallism=P)`
 
@@ -509,5 +510,45 @@ example : ∃ c, Reachable (Piter.evalFn .ident none)
   obtain ⟨c, hr, hc⟩ := Option.map_eq_some_iff.mp h
   simp only [Prod.mk.injEq, beq_iff_eq] at hc
   exact ⟨c, reachable_run _ _ _ hr, quiescent_of_enabled_nil hc.1, hc.2.1, hc.2.2⟩
+
+/-! ## Round 11 (package C13D3): the links composed -/
+
+/-- **conservation across both levels, every run** (failures of inputs or of `iterator_fn`, early stop, every schedule,
+every reachable configuration — not only final ones): as MULTISETS
+* the values delivered to the caller are part of `iterator_fn`'s outputs over the values the second-level tasks have
+  pulled out of the input queue;
+* the values the second-level tasks have pulled are part of the values of the input iterators `inputs`;
+* hence the delivered values are part of `iterator_fn`'s outputs over all input values.
+`List.Subperm` is multiset inclusion: no value is delivered more often than the sequential evaluation produces it —
+nothing is duplicated, nothing is invented, at either level.  (The composition of `C13_two_output_exactly_once`,
+`_second_level_exactly_once_partial`, `_input_exactly_once`, `_fifo`, `_first_level_exactly_once_partial`.) -/
+theorem C13_two_inclusion {cap1 cap2 bm1 bm2 mw : Nat} {ns : Option Nat} {fwd ff : Bool}
+    {inputs : List InSpec} {gens : List Nat} {c : Piter2.Cfg}
+    (h : Reachable F (initF cap1 cap2 bm1 bm2 mw ns fwd ff inputs gens) c) {t0 : Th} (ht0 : c.ths[0]? = some t0) :
+    (t0.b.received.map (·.2)).Subperm ((c.ths.map pulled2).flatten.flatMap (Fp F)) ∧
+    (c.ths.map pulled2).flatten.Subperm (inputs.flatMap fun i => valsOf i.items) ∧
+    (t0.b.received.map (·.2)).Subperm ((inputs.flatMap fun i => valsOf i.items).flatMap (Fp F)) := by
+  obtain ⟨hperm, hsub⟩ := C13_two_second_level_exactly_once_partial h ht0
+  obtain ⟨hprod, hsub1⟩ := C13_two_first_level_exactly_once_partial h
+  have h1 := delivered_subperm (F := F) hperm hsub
+  have h2 := pulled_subperm (C13_two_fifo h).1 (C13_two_input_exactly_once h) hprod hsub1
+  rw [inVals_reachable h] at h2
+  exact ⟨h1, h2, h1.trans (subperm_flatMap _ h2)⟩
+
+/-- test (by `decide`), non-vacuity: a complete run of two inputs through one `iterator_fn` task; the caller has
+received both values -/
+example : ∃ c t0, Reachable (Piter.evalFn .ident none)
+      (initF 1 1 1 2 3 none false true [⟨[.val 1], 900, []⟩, ⟨[.val 2], 901, []⟩] [800]) c ∧
+      c.ths[0]? = some t0 ∧ (t0.b.received.map (·.2)).length = 2 := by
+  have h : ((run (Piter.evalFn .ident none)
+      (initF 1 1 1 2 3 none false true [⟨[.val 1], 900, []⟩, ⟨[.val 2], 901, []⟩] [800])
+      (List.replicate 10 0 ++ List.replicate 17 1 ++ List.replicate 7 2 ++ List.replicate 13 3 ++ List.replicate 23 2 ++
+        List.replicate 9 3 ++ List.replicate 18 0 ++ List.replicate 22 3 ++ List.replicate 18 0 ++ List.replicate 14 3 ++
+        List.replicate 6 0 ++ List.replicate 7 3 ++ [0])).map fun c =>
+          c.ths[0]?.map fun t => (t.b.received.map (·.2)).length) = some (some 2) := by
+    decide +kernel
+  obtain ⟨c, hr, hc⟩ := Option.map_eq_some_iff.mp h
+  obtain ⟨t0, ht0, hl⟩ := Option.map_eq_some_iff.mp hc
+  exact ⟨c, t0, reachable_run _ _ _ hr, ht0, hl⟩
 
 end MlModel.C13
